@@ -85,6 +85,22 @@ type Team struct {
 }
 
 // Counts has unsigned and signed integer leaves (navigated, never compared: their JSON twin is a float).
+// Rec2 embeds a pointer to a struct that itself embeds a pointer: fields promoted through two levels.
+type Base2 struct {
+	ID    float64
+	Label string
+}
+
+type Mid2 struct {
+	*Base2
+	Score float64
+}
+
+type Rec2 struct {
+	*Mid2
+	Name string
+}
+
 // Dyn / DynItem: Go values that are not in JSON-canonical form.
 type Dyn struct {
 	Name string
@@ -353,6 +369,9 @@ func checkC18(r *harness.Run) harness.Coverage {
 				Ptrs: []*Group{{"p1", []Leaf{{"c0", 0, false}, {"c1", 1, true}}}, nil}},
 			&Counts{3, 4, -5, []uint16{1, 2}, "c"},
 			&EmbP{nil, 3}, []*EmbP{{nil, 1}, {&Meta{2, "l"}, 2}},
+			// two levels of embedded pointers: all set, inner nil, outer nil
+			Rec2{&Mid2{&Base2{1, "deep"}, 2}, "r1"}, &Rec2{&Mid2{nil, 3}, "r2"}, Rec2{nil, "r3"},
+			[]Rec2{{&Mid2{&Base2{4, "a"}, 1}, "x"}, {&Mid2{nil, 2}, "y"}, {nil, "z"}}, []*Rec2{{&Mid2{nil, 5}, "p"}, nil},
 			// a generic map holding Go structs and pointers to structs
 			map[string]interface{}{"Name": "holder", "Repo": Leaf{"s", 7, true}, "Kids": []interface{}{&Leaf{"p", 1, false}, Leaf{"q", 2, true}}, "ID": &Meta{9, "m"}},
 			// generic containers holding typed slices
@@ -374,7 +393,7 @@ func checkC18(r *harness.Run) harness.Coverage {
 			"Groups[:].Members[:].S", "Groups[*].Members[*].S", "Groups[:].Members[1:].N", "Groups[].Members[].S", "Groups[::-1].Members[::-1].S", "Ptrs[:].Members[:].S", "Groups[:2].Members[:2].S",
 			"Groups[?Members].Title", "Groups[*].Members[?B].S", "length(Groups[0].Members)", "Groups[*].Title",
 			"U", "U8", "I", "Us", "Us[0]", "[U, I, Tag]", "{u: U, t: Tag}", "length(Us)", "Us[::-1]", "Tag || U",
-			"Score", "[ID, Score]", "[*].ID", "[*].Score", "[?Score > `1`].Label", "[1].Label",
+			"Score", "[ID, Score]", "[*].ID", "[*].Score", "[?Score > `1`].Label", "[1].Label", "[*].Label", "[?!ID].Name", "[?ID].Name", "[*].[ID, Score, Name]", "[ID, Label, Score, Name]", "[1].ID", "[2].Score", "[-1].Name",
 			"A == B", "A != B", "A.In == B.In", "Ws[?@ == A].Tag", "Ws[0] == A", "Ws[1] == A", "Ws[?In.S == 'x'].Tag", "Ws[?In.N > `1`].In.S", "A.In.S == B.In.S", "[A == B, A.Tag == B.Tag]", "Ws[2].In == `null`"} {
 			embExprs = append(embExprs, [2]string{e, e}, [2]string{lowerFirst(univ.Lx(e)), e})
 		}
